@@ -99,6 +99,23 @@ PLANS = {}
 
 PLANS['C06'] = {
     'level': 'model_checking', 'tv_spec': 'TV_API',
-    'run': api_runner({'quick': [('mods', 12, 30, 12), ('mods2', 6, 30, 4)],
+    'run': api_runner({'quick': [('mods', 40, 30, 12), ('mods2', 20, 30, 4)],
                        'thorough': [('mods', 120, 30, 16), ('mods2', 60, 30, 16)]}),
+}
+
+PLANS['C01'] = {
+    'level': 'model_checking', 'tv_spec': 'TV_API',
+    'run': api_runner({'quick': [('cert', 40, 3, 12), ('certbig', 10, 2, 4)],
+                       'thorough': [('cert', 400, 4, 16), ('certbig', 100, 3, 16), ('certscaled', 100, 3, 8)]}),
+}
+
+PLANS['C02'] = {
+    'level': 'model_checking', 'tv_spec': 'TV_API',
+    'run': api_runner({'quick': [('cert2', 40, 3, 12), ('certbig2', 10, 2, 4)],
+                       'thorough': [('cert2', 400, 4, 16), ('certbig2', 100, 3, 16), ('certscaled', 100, 3, 8)]}),
+}
+PLANS['C04'] = {
+    'level': 'model_checking', 'tv_spec': 'TV_API',
+    'run': api_runner({'quick': [('basis', 12, 30, 12), ('cert', 20, 2, 4)],
+                       'thorough': [('basis', 120, 30, 16), ('cert', 200, 3, 16)]}),
 }
